@@ -32,6 +32,17 @@ func checkNoDynamicEquality(c *Ctx, r *Rec, rule string, fds []*ast.FuncDecl) {
 		if info == nil || fd.Body == nil {
 			continue
 		}
+		// a function that asks reflect whether the type is comparable knows what it is doing
+		asksComparable := false
+		ast.Inspect(fd.Body, func(n ast.Node) bool {
+			if _, mname, _, ok := methodCall(n); ok && mname == "Comparable" {
+				asksComparable = true
+			}
+			return true
+		})
+		if asksComparable {
+			continue
+		}
 		ast.Inspect(fd.Body, func(n ast.Node) bool {
 			be, ok := n.(*ast.BinaryExpr)
 			if !ok || (be.Op != token.EQL && be.Op != token.NEQ) {
